@@ -127,16 +127,19 @@ func (c *chain) project(ctx sdk.Context, u *universe) (entries []entry, raw stri
 	it := store.Iterator(nil, nil)
 	defer it.Close()
 	for ; it.Valid(); it.Next() {
+		// every record reaches the judge: one that holds no (known) certificate is projected as a marked value
+		// (o, s = "?", b = 0; state "undecodable" when the value is no Certificate at all) placed by its key
 		var val ctypes.Certificate
-		if e := c.app.AppCodec().UnmarshalBinaryBare(it.Value(), &val); e != nil {
-			return nil, "", fmt.Errorf("unprojectable value under key %x: %v", it.Key(), e)
-		}
-		o, s, b := u.identify(val.Cert)
-		if o == "?" || s == "?" || b == 0 {
-			return nil, "", fmt.Errorf("unprojectable certificate under key %x (owner %s serial %s body %d)", it.Key(), o, s, b)
+		o, s, b, stn := "?", "?", 0, "undecodable"
+		if e := c.app.AppCodec().UnmarshalBinaryBare(it.Value(), &val); e == nil {
+			o, s, b = u.identify(val.Cert)
+			stn = stateName(val.State)
+			if o == "?" || s == "?" || b == 0 {
+				o, s, b = "?", "?", 0
+			}
 		}
 		ko, ks := u.keyIdentity(it.Key())
-		entries = append(entries, entry{O: o, S: s, St: stateName(val.State), B: b, Ko: ko, Ks: ks, Key: hex.EncodeToString(it.Key())})
+		entries = append(entries, entry{O: o, S: s, St: stn, B: b, Ko: ko, Ks: ks, Key: hex.EncodeToString(it.Key())})
 		raw += hex.EncodeToString(it.Key()) + "=" + hex.EncodeToString(it.Value()) + ";"
 	}
 	sort.SliceStable(entries, func(i, j int) bool {
@@ -320,6 +323,9 @@ func (c *chain) get(ctx sdk.Context, u *universe, o, s string) (res qres) {
 // page size, every keeper iterator, and GetCertificateByID for every (owner, serial).
 func (c *chain) queries(ctx sdk.Context, u *universe, pageSizes []int) []qres {
 	var out []qres
+	if c.noq {
+		return out
+	}
 	owners := append([]string{""}, u.Owners...)
 	serials := append([]string{""}, u.Serials...)
 	states := []string{"", "valid", "revoked"}
